@@ -124,8 +124,13 @@ pub enum Via {
     MixedHi,
     /// static bounds, `.configure(|cfg, _| cfg)`
     ConfigureNoop,
+    /// tighter static bounds `.at_least(lo+1).at_most(hi-1)` overridden by `.configure(|cfg, _| cfg.at_least(lo).at_most(hi))`
+    /// (requires an upper bound >= 1): the configured bounds replace the static ones
+    Override,
+    /// static `.at_most(1)` overridden by `.configure(|cfg, _| cfg.exactly(n))` (requires lo == hi)
+    OverrideExactly,
 }
-pub const ALL_VIAS: &[Via] = &[Via::Static, Via::Exactly, Via::Configure, Via::ConfigureExactly, Via::MixedLo, Via::MixedHi, Via::ConfigureNoop];
+pub const ALL_VIAS: &[Via] = &[Via::Static, Via::Exactly, Via::Configure, Via::ConfigureExactly, Via::MixedLo, Via::MixedHi, Via::ConfigureNoop, Via::Override, Via::OverrideExactly];
 
 /// Predicates of `filter` / `try_map`: functions of the flattened token text of the output only.
 #[derive(Clone, Copy, Debug, PartialEq, Eq, Hash, PartialOrd, Ord)]
@@ -374,11 +379,11 @@ impl G {
         let ok_bounds = match self.op {
             Rep | Sep => {
                 let exact_ok = match self.p.via {
-                    Via::Exactly | Via::ConfigureExactly => Some(self.p.lo) == self.p.hi,
+                    Via::Exactly | Via::ConfigureExactly | Via::OverrideExactly => Some(self.p.lo) == self.p.hi,
                     _ => true,
                 };
                 let arr_ok = true;
-                let cfg_ok = !(self.op == Sep && !matches!(self.p.via, Via::Static | Via::Exactly)) && !(self.p.via == Via::MixedHi && self.p.hi.is_none());
+                let cfg_ok = !(self.op == Sep && !matches!(self.p.via, Via::Static | Via::Exactly)) && !(matches!(self.p.via, Via::MixedHi | Via::Override) && self.p.hi.is_none());
                 exact_ok && arr_ok && cfg_ok
             }
             _ => true,
@@ -416,6 +421,8 @@ impl G {
                 Via::MixedLo => s += &format!("{}.configure(|c,_| c.at_least({}))", p.hi.map(|h| format!(".at_most({})", h)).unwrap_or_default(), p.lo),
                 Via::MixedHi => s += &format!(".at_least({}).configure(|c,_| c.at_most({}))", p.lo, p.hi.unwrap_or(0)),
                 Via::ConfigureNoop => s += &format!(".at_least({}){}.configure(|c,_| c)", p.lo, p.hi.map(|h| format!(".at_most({})", h)).unwrap_or_default()),
+                Via::Override => s += &format!(".at_least({}).at_most({}).configure(|c,_| c.at_least({}).at_most({}))", p.lo + 1, p.hi.unwrap_or(0).saturating_sub(1), p.lo, p.hi.unwrap_or(0)),
+                Via::OverrideExactly => s += &format!(".at_most(1).configure(|c,_| c.exactly({}))", p.lo),
             }
             s
         };
@@ -440,7 +447,7 @@ impl G {
             Select => format!("select!{{c if {:?}.contains(c)}}", cs),
             End => "end()".into(),
             Empty => "empty()".into(),
-            Custom => format!("custom(take {} then {})", self.p.n, if self.p.ok { "Ok" } else { "Err" }),
+            Custom => format!("custom({} {} then {})", match self.p.lo { 1 => "peek+skip", 3 => "take, rewind, take again", _ => "take" }, self.p.n, if self.p.ok { "Ok" } else { "Err" }),
             Probe => format!("probe#{}", self.id),
             Then => format!("{}.then({})", k[0], k[1]),
             IgnoreThen => format!("{}.ignore_then({})", k[0], k[1]),
@@ -490,7 +497,16 @@ impl G {
             IgnoreWithCtx => format!("{}.ignore_with_ctx({})", k[0], k[1]),
             MapCtx => format!("map_ctx(ctx+{:?}, {})", cs, k[0]),
             CtxJust => "just(..).configure(|c,ctx| c.seq(text(ctx)))".to_string(),
-            CtxRep if self.p.ok => format!("{}.repeated().configure(|c,ctx| c.exactly(len(ctx))).collect::<Vec<_>>()", k[0]),
+            CtxRep if self.p.ok => format!(
+                "{}.repeated(){}.configure(|c,ctx| c.exactly(len(ctx))){}",
+                k[0],
+                if self.p.lead { ".at_least(3).at_most(1)" } else { "" },
+                match self.p.flav {
+                    Flav::Unit => ".to(())",
+                    Flav::Count => ".count()",
+                    _ => ".collect::<Vec<_>>()",
+                }
+            ),
             CtxRep => format!("{}.repeated().try_configure(|c,ctx,span| if len(ctx)==2 {{ Err(Q{}) }} else {{ Ok(c.exactly(len(ctx))) }}).collect::<Vec<_>>()", k[0], self.id),
             WithState => format!("{}.with_state(Insp::fresh({}))", k[0], self.p.n),
             Rec => format!("recursive(|r{}| {})", self.p.n, k[0]),
@@ -624,6 +640,8 @@ pub fn vary_containers(g: &mut G, rng: &mut Rng) {
     match g.op {
         Op::OneOf | Op::NoneOf => g.p.n = rng.below(7) as u8,
         Op::JustSeq => g.p.n = rng.below(4) as u8,
+        // how a custom parser consumes: next(), peek()+skip(), or take / rewind by hand / take again
+        Op::Custom => g.p.lo = [0u8, 1, 3][rng.below(3)],
         _ => {}
     }
     for k in &mut g.kids {
